@@ -25,6 +25,8 @@ type replayObj struct {
 	Path       []Rec             `json:"path"`
 	Edge       *Rec              `json:"edge,omitempty"`
 	Alt        bool              `json:"alt,omitempty"`
+	Enc        int               `json:"enc,omitempty"`     // identity spelling of the edge (see Chain.spell)
+	PathEnc    int               `json:"pathEnc,omitempty"` // identity spelling of the path records
 	Check      string            `json:"check"` // "edge" | "keys"
 	Cfg        string            `json:"cfg,omitempty"`
 }
@@ -65,14 +67,15 @@ func newHarness(t *testing.T, rep *vfutil.Report, prop string, meta *Meta, cfg s
 	return h, nil
 }
 
-func (h *harness) robj(path []Rec, edge *Rec, alt bool, check string) replayObj {
+func (h *harness) robj(c *Chain, path []Rec, edge *Rec, alt bool, check string) replayObj {
 	return replayObj{AccSeq: h.meta.AccSeq, InvIds: h.meta.InvIds, InitPerm: h.meta.InitPerm, InitPrefix: h.meta.InitPrefix,
-		Path: path, Edge: edge, Alt: alt, Check: check, Cfg: h.cfg}
+		Path: path, Edge: edge, Alt: alt, Enc: c.enc, PathEnc: c.pathEnc, Check: check, Cfg: h.cfg}
 }
 
 // walk replays a path of model-accepted records on a fresh fork of the start state.
-func (h *harness) walk(path []Rec) (*Chain, error) {
+func (h *harness) walk(path []Rec, enc int) (*Chain, error) {
 	c := h.base.fork()
+	c.enc, c.pathEnc = enc, enc
 	for k, r := range path {
 		rd := c.render(r, false)
 		if rd.skip != "" {
@@ -117,7 +120,7 @@ func (h *harness) evalEdge(c *Chain, path []Rec, r Rec, alt bool, mv verdict) {
 				violated = true
 				if h.prop == "C04" {
 					h.rep.Violate(c04Key(x, r.A, ct, pf), fmt.Sprintf("%s violated on the real ACL: %s. Record %s (content %d) accepted by the fully validating list after %v",
-						pf.pred, pf.detail, r, k+1, path), h.robj(path, &r, alt, "edge"))
+						pf.pred, pf.detail, r, k+1, path), h.robj(c, path, &r, alt, "edge"))
 				}
 			}
 		}
@@ -150,7 +153,7 @@ func (h *harness) evalEdge(c *Chain, path []Rec, r Rec, alt bool, mv verdict) {
 				if h.prop == "C05" {
 					h.rep.Violate("RotationCoversExactlyActive:"+ct.K+":"+ct.V,
 						fmt.Sprintf("rotation accepted with ciphertexts for accounts %v invites %v, but the principals with standing after it are %v / %v. Record %s (content %d) after %v",
-							sortedCopy(rot.accounts), sortedCopy(rot.invites), expA, expI, r, k+1, path), h.robj(path, &r, alt, "edge"))
+							sortedCopy(rot.accounts), sortedCopy(rot.invites), expA, expI, r, k+1, path), h.robj(c, path, &r, alt, "edge"))
 				}
 			}
 		}
@@ -249,7 +252,9 @@ func (h *harness) runState(sf *StateFile, b budget, seed int64) {
 	if !sf.PruneOK {
 		h.rep.DriftNote("[%s] %s: candidate pruning of the specification lost an accepted record (PruneSound)", h.cfg, sf.file)
 	}
-	c, err := h.walk(sf.Path)
+	hs := fnv.New64a()
+	hs.Write([]byte(sf.file))
+	c, err := h.walk(sf.Path, int(hs.Sum64()%3))
 	if err != nil {
 		h.rep.DriftNote("[%s] %s: %v", h.cfg, sf.file, err)
 		return
@@ -264,8 +269,6 @@ func (h *harness) runState(sf *StateFile, b budget, seed int64) {
 	if h.prop == "C05" {
 		h.checkKeys(c, sf.Path, &sf.S)
 	}
-	hs := fnv.New64a()
-	hs.Write([]byte(sf.file))
 	rng := rand.New(rand.NewSource(seed ^ int64(hs.Sum64())))
 	if strings.HasPrefix(h.cfg, "H-") {
 		// honest-history states (C05): EVERY record the model accepts here that the client builder can express is
@@ -284,6 +287,7 @@ func (h *harness) runState(sf *StateFile, b budget, seed int64) {
 	// 1. every record the model accepts
 	for i := range sf.Acc {
 		e := &sf.Acc[i]
+		c.enc = n / 2
 		h.evalEdge(c, sf.Path, e.Rec, n%2 == 1, verdict{known: true, why: "ok", post: &e.Post})
 		n++
 	}
@@ -336,7 +340,8 @@ func (h *harness) runState(sf *StateFile, b budget, seed int64) {
 		}
 		for _, k := range pick {
 			e := alpha[k]
-			h.evalEdge(c, sf.Path, Rec{A: e.A, Cs: []Content{e.C}}, n%2 == 1, verdict{known: true, why: sf.Whys[k]})
+			c.enc = n / 2
+		h.evalEdge(c, sf.Path, Rec{A: e.A, Cs: []Content{e.C}}, n%2 == 1, verdict{known: true, why: sf.Whys[k]})
 			n++
 		}
 	} else {
@@ -347,7 +352,8 @@ func (h *harness) runState(sf *StateFile, b budget, seed int64) {
 				continue
 			}
 			// verdict known only where the candidate pruning cannot have dropped an accepted variant
-			h.evalEdge(c, sf.Path, r, n%2 == 1, verdict{known: false})
+			c.enc = n / 2
+		h.evalEdge(c, sf.Path, r, n%2 == 1, verdict{known: false})
 			n++
 		}
 	}
@@ -363,7 +369,8 @@ func (h *harness) runState(sf *StateFile, b budget, seed int64) {
 		}
 		for _, i := range idx {
 			e := &sf.AccB[i]
-			h.evalEdge(c, sf.Path, e.Rec, n%2 == 1, verdict{known: true, why: "ok", post: &e.Post})
+			c.enc = n / 2
+		h.evalEdge(c, sf.Path, e.Rec, n%2 == 1, verdict{known: true, why: "ok", post: &e.Post})
 			n++
 		}
 		// random second contents after an accepted first content: the model rejects unless listed
@@ -374,7 +381,8 @@ func (h *harness) runState(sf *StateFile, b budget, seed int64) {
 			if _, ok := accB[recKey(r)]; ok {
 				continue
 			}
-			h.evalEdge(c, sf.Path, r, n%2 == 1, verdict{known: false})
+			c.enc = n / 2
+		h.evalEdge(c, sf.Path, r, n%2 == 1, verdict{known: false})
 			n++
 		}
 		// a rejected first content rejects the batch
@@ -384,7 +392,8 @@ func (h *harness) runState(sf *StateFile, b budget, seed int64) {
 			if _, ok := accepted[recKey(Rec{A: e1.A, Cs: []Content{e1.C}})]; ok {
 				continue
 			}
-			h.evalEdge(c, sf.Path, r, n%2 == 1, verdict{known: false})
+			c.enc = n / 2
+		h.evalEdge(c, sf.Path, r, n%2 == 1, verdict{known: false})
 			n++
 		}
 	}
@@ -516,7 +525,7 @@ func runReplayObject(t *testing.T, rep *vfutil.Report, prop string, raw json.Raw
 		}
 	}
 	h.base = c
-	ch, err := h.walk(ro.Path)
+	ch, err := h.walk(ro.Path, ro.PathEnc)
 	if err != nil {
 		// the path itself is no longer accepted (e.g. the defect has been repaired upstream of the edge)
 		t.Logf("replay: %v", err)
@@ -537,6 +546,7 @@ func runReplayObject(t *testing.T, rep *vfutil.Report, prop string, raw json.Raw
 		}
 	default:
 		if ro.Edge != nil {
+			ch.enc = ro.Enc
 			h.evalEdge(ch, ro.Path, *ro.Edge, ro.Alt, verdict{known: false})
 		}
 	}
@@ -581,7 +591,7 @@ func TestCounterexamples(t *testing.T) {
 		}
 		path, edge := cex.Path[:len(cex.Path)-1], cex.Path[len(cex.Path)-1]
 		rep.Case("cex|" + cex.Name)
-		c, err := h.walk(path)
+		c, err := h.walk(path, 0)
 		if err != nil {
 			refused++
 			t.Logf("counterexample %s: the real list refuses the path: %v", cex.Name, err)
